@@ -23,25 +23,36 @@ REPOTESTS = True
 
 RULE = ('unit cells: 9 cell kinds (7 crystal families, strongly tilted, arbitrarily oriented), 1-5 atoms, 1-3 types, an integer and '
         'a float-vector per-atom property, 5 position classes (generic / atom on the lattice point / only 0-and-1/2 positions / '
-        'mixed / atoms on faces and edges), cell origin classes zero / within one cell vector of 0 / a few cells away / 1e3 cells '
-        'away, and for supersize 3 length scales - all assigned round-robin from the case index.  supersize: 8 multiplier classes '
-        '(positive, negative, two-sided, half-open tuples, numpy ints, tuples of numpy ints, mixed, unit), positional and keyword '
-        'form.  rotate: EVERY integer 3x3 matrix with entries in [-1,1] and det != 0 (11 808, both handedness; first pass on '
-        'origins zero/small, the further passes of the thorough tier on all four origin classes), seeded samples with entries up '
-        'to 2 and 3 (an entry of maximal magnitude present, sign of det alternating, 4 argument forms, with and without '
-        'return_transform), Miller-Bravais 3x4 sets (reduced and unreduced) on hexagonal cells, and the documented refusals.  '
-        'Conversions: all 22 (setting, basis, family) combinations of p,i,f,a,b,c,t1,t2,t with a compatible family, both dump '
-        'styles, both round trips, primitive input in raw and arbitrarily rotated orientation.  Non-trivial = the call changes the '
-        'cell (replication > 1, vectors not the identity, setting not p); distinct = distinct fingerprint of (cell, atoms, argument).')
-ASSUMPTIONS = ['cells are right-handed and well conditioned (volume >= 10 % of abc); atoms of one cell are at least 0.12 x the '
-               'shortest cell vector apart',
+        'mixed / atoms on faces and edges), cell origin classes zero / a non-zero lattice vector / generic (non-lattice) within one '
+        'cell vector of 0 / a few cells away / 1e3 cells away, right-handed cells and left-handed descriptions of them (one or all '
+        'three cell vectors reversed, same crystal), and for supersize 3 length scales - all assigned round-robin from the case '
+        'index.  supersize: 8 multiplier classes (positive, negative, two-sided, half-open tuples, numpy ints, tuples of numpy ints, '
+        'mixed, unit), positional and keyword form, a quarter on left-handed cells.  rotate: EVERY integer 3x3 matrix with entries in '
+        '[-1,1] and det != 0 (11 808, both handedness; first pass on origins zero / lattice / generic of three sizes, the further '
+        'passes of the thorough tier on all five origin classes), seeded samples with entries up to 2 and 3 (an entry of maximal '
+        'magnitude present, sign of det alternating, 4 argument forms, with and without return_transform), Miller-Bravais 3x4 sets '
+        '(reduced and unreduced) on hexagonal cells, the documented refusals, and FAMILIES of five calls on one unit cell (identity, '
+        'a vector set, the same three vectors with the opposite handedness - 7 flips -, identity and the same vectors on the '
+        'left-handed description of the cell - 4 mirrors; 4 matrix sources x 5 origin classes x 7 flips x 9 cell kinds crossed by '
+        'coprime strides) whose results are compared with one another.  Conversions: all 22 (setting, basis, family) combinations of '
+        'p,i,f,a,b,c,t1,t2,t with a compatible family, both dump styles, both round trips, primitive input in raw and arbitrarily '
+        'rotated orientation, and right- plus left-handed descriptions of one conventional / primitive cell on all five origin '
+        'classes.  Non-trivial = the call changes the cell (replication > 1, vectors not the identity, setting not p); distinct = '
+        'distinct fingerprint of (cell, atoms, argument).')
+ASSUMPTIONS = ['cells are well conditioned (volume >= 10 % of abc), right-handed or a left-handed description of a right-handed one '
+               '(cell vectors reversed, corner moved, atoms inside); atoms of one cell are at least 0.12 x the shortest cell vector apart',
                'matched positions are compared with the bound 1e-6 x longest original cell vector; "inside" is judged in '
                'relative coordinates with a 1e-9 bound',
                'per-atom property values must be carried over identically (vector properties are not expected to be rotated)',
-               '"maps through the returned rotation" is accepted in either of two frames: x_orig = inv(T).x_res (the literal reading; '
-               'what rotate does today for non-identity vector sets) or with the two cell corners identified (what the identity '
-               'shortcut / normalize does, and what rotate would do once the origin-offset finding is repaired); supersize is judged '
-               'in absolute coordinates only',
+               '"maps through the returned rotation" is accepted in either of two frames: x_orig = inv(T).x_res (the literal reading) '
+               'or with the two cell corners identified (what rotate / normalize do since 3219638) - but the frame is a rule of the '
+               'code, not a choice per call: both readings are evaluated for every call, and calls that can tell them apart (cell '
+               'corner not on a lattice point) must agree within a case (all vector sets, both handednesses, identity shortcut, '
+               'internal calls of the conversions on one unit cell) and within a run; results obtained from two descriptions of one '
+               'crystal are also compared with each other directly (relative to their own cell corners), which does not depend on '
+               'the reading; supersize is judged in absolute coordinates only',
+               'a left-handed vector set (or a vector set on a left-handed cell) must return the crystal that the same three lattice '
+               'vectors return when taken right-handed; when only the third vector is reversed also the same cell and rotation',
                'conventional_to_primitive refusing (check_basis) a cell that has no atom on its corner lattice point is a documented '
                'refusal; it occurs for c2p(p2c(x)) when x has a non-zero origin and is counted, not failed',
                'entries beyond [-1,1] are a seeded sample, not an enumeration (all of [-2,2] would be 1.9 million calls); '
@@ -54,7 +65,8 @@ CONFIG = {'quick': dict(shards=8, seeds=1, timeout=900),
 N_ENUM1 = 11808
 BIG = 6000            # result atoms above which the crystal comparison of an *internal* supersize call is skipped
 
-STATE = {'chain': [], 'cls': None}
+STATE = {'chain': [], 'cls': None, 'readings': [], 'ledger': {}, 'hand': None}
+EXCLUSIVE = ('absolute-only', 'cell-corner-only')
 
 
 @contextlib.contextmanager
@@ -126,22 +138,67 @@ def build_system(am, u):
 # ------------------------------------------------------------------------------------------------
 # the judge shared by every entry point
 # ------------------------------------------------------------------------------------------------
-def compare_auto(oc, rc, T, anchor, tol, rec):
-    """anchor 'auto': the statement's literal reading first (x_orig = inverse rotation of x_res, no
-    translation); if that fails, the reading in which the two cell corners are the same crystal
-    point (a cell re-based at a zero origin).  Either is 'the same infinite crystal'."""
+def compare_auto(oc, rc, T, anchor, tol, rec, key=''):
+    """anchor 'auto': the statement's literal reading (x_orig = inverse rotation of x_res, no translation) and the
+    reading in which the two cell corners are the same crystal point (a cell re-based at a zero origin) are BOTH
+    evaluated.  Either is 'the same infinite crystal' for one call, but the reading is a rule of the code, not a
+    choice per call: which reading(s) held is noted, and ``note_reading`` / ``end_case`` require that calls which
+    can tell the readings apart (cell corner not on a lattice point) never disagree - not between the vector sets
+    applied to one unit cell, not between left- and right-handed descriptions, not between the calls of a run."""
     if anchor != 'auto':
         return X.compare(oc, rc, T=T, anchor=anchor, tol=tol)
     rep = X.compare(oc, rc, T=T, anchor='absolute', tol=tol)
-    if rep.same or not np.any(oc.origin):
-        rec.count('anchor:absolute')
+    if not np.any(oc.origin) and not np.any(rc.origin):
+        rec.count('anchor:readings-identical')
+        note_reading(rec, 'both', key)
         return rep
     rep2 = X.compare(oc, rc, T=T, anchor='origin', tol=tol)
-    if rep2.same:
-        rec.count('anchor:cell-corner')
-        return rep2
-    rec.count('anchor:neither')
-    return rep
+    cls = {(True, True): 'both', (True, False): 'absolute-only', (False, True): 'cell-corner-only',
+           (False, False): 'neither'}[(rep.same, rep2.same)]
+    rec.count('anchor:' + cls)
+    note_reading(rec, cls, key)
+    return rep if rep.same else rep2
+
+
+def note_reading(rec, cls, key=''):
+    """Per-case list and per-run ledger of the frame readings that held.  A call whose reading excludes the
+    one an earlier call of this run (worker) needed refutes 'one rule for all calls' at once; the case that
+    first showed the other reading is named in the detail (replay both with --only)."""
+    hand = STATE['hand']
+    STATE['readings'].append((cls, hand, key))
+    if len(STATE['readings']) > 20000:                       # calls outside any case (repository tests)
+        del STATE['readings'][:10000]
+    if cls not in EXCLUSIVE:
+        return
+    rec.count('anchor:pinned' + ('' if hand is None else ':' + hand))
+    led = STATE['ledger']
+    first = led.setdefault('first', dict(reading=cls, case=rec.cur, hand=hand, call=key, cls=STATE['cls']))
+    rec.check(first['reading'] == cls, 'the frame in which result atoms map through the returned rotation (plain rotation, or cell '
+              'corners identified) is the same for all calls of a run', 'anchor:mixed-across-calls',
+              this=dict(reading=cls, hand=hand, call=key, cls=STATE['cls']), first_call_that_told_the_readings_apart=first)
+
+
+def begin_case():
+    del STATE['readings'][:]
+
+
+def end_case(rec, key):
+    """All calls made for one unit cell (any vector set, either handedness, identity shortcut, the internal calls of
+    a conversion) use one frame reading."""
+    rs = STATE['readings']
+    ex = {}
+    for cls, hand, chain in rs:
+        if cls in EXCLUSIVE:
+            ex.setdefault(cls, []).append((hand, chain))
+    if ex:
+        hands = {h for v in ex.values() for h, _ in v}
+        rec.count('anchor:case-pinned')
+        if {'lh', 'rh'} <= hands:
+            rec.count('anchor:case-pinned-lh-and-rh')
+    rec.check(len(ex) < 2, 'left- and right-handed vector sets, the identity shortcut and the internal calls made for ONE unit cell '
+              'all use the same frame reading (plain rotation, or cell corners identified)', key + ':anchor-consistent',
+              readings={k: v[:6] for k, v in ex.items()}, cls=STATE['cls'])
+    del rs[:]
 
 
 def judge(rec, key, what, old, res, T, anchor, n_expected, M_candidates=None, lammps=False, detail=None):
@@ -173,7 +230,7 @@ def judge(rec, key, what, old, res, T, anchor, n_expected, M_candidates=None, la
     if new['natoms'] > BIG and len(STATE['chain']) > 1:
         rec.count('judge:skipped-large-internal')
         return None
-    rep = compare_auto(oc, rc, T, anchor, 1e-6 * L, rec)
+    rep = compare_auto(oc, rc, T, anchor, 1e-6 * L, rec, key)
     rec.count('judged:same-crystal', int(rep.same))
     s = rep.summary()
     inp = dict(vects=old['vects'], origin=old['origin'], pos=old['props']['pos'])
@@ -332,8 +389,11 @@ def install_monitors(rec, am):
             T = np.asarray(T, float)
         else:
             res, T = result, None
-        # left-handed sets: the third vector is reversed to make the cell right-handed
-        Ms = [Mc if gen.det3(Mc) > 0 else np.diag([1, 1, -1]) @ Mc for Mc in cands]
+        # left-handed sets (Cartesian handedness = sign det(uvws) x handedness of the input cell): the third vector
+        # is reversed to make the cell right-handed
+        hs = 1 if np.linalg.det(old['vects']) > 0 else -1
+        Ms = [Mc if gen.det3(Mc) * hs > 0 else np.diag([1, 1, -1]) @ Mc for Mc in cands]
+        rec.count('monitor:rotate:' + ('lh' if gen.det3(cands[0]) * hs < 0 else 'rh'))
         dets = {abs(gen.det3(Mc)) for Mc in cands}
         if T is None:
             # without the rotation only the frame-independent clauses can be judged
@@ -350,7 +410,11 @@ def install_monitors(rec, am):
                 if np.abs(M0 - Mh).max() < 1e-6:
                     n = abs(gen.det3(Mc))
                     break
-        judge(rec, key, 'rotate', old, res, T, 'auto', n, Ms, lammps=True, detail=dict(uvws=uvws))
+        STATE['hand'] = 'lh' if gen.det3(cands[0]) * hs < 0 else 'rh'
+        try:
+            judge(rec, key, 'rotate', old, res, T, 'auto', n, Ms, lammps=True, detail=dict(uvws=uvws))
+        finally:
+            STATE['hand'] = None
 
     monitor.observe(System, 'supersize', post_supersize, pre('supersize'))
     monitor.observe(System, 'rotate', post_rotate, pre('rotate'))
@@ -383,6 +447,75 @@ def count_cell_classes(rec, u):
         rec.count('class:several-atoms')
 
 
+def harness_selfcheck(rng):
+    """[(name, ok)]: the re-description helpers of the generator do what they say (judged by the oracle), and the
+    oracle tells the two frame readings apart exactly when the cell corner is off the lattice."""
+    out = []
+    for how in gen.MIRRORS:
+        u = gen.gen_unit_cell(rng, 'triclinic', 'small', 1.0, 4, 2, 'face')
+        m = gen.mirror_description(u, how)
+        lab = X.make_labels(u['natoms'], u['atype'], u['idn'])
+        r = X.compare((u['vects'], u['origin'], u['pos'], lab), (m['vects'], m['origin'], m['pos'], lab), anchor='absolute')
+        inside = X.inside_fraction(m['vects'], m['origin'], m['pos'], 1e-12)[1].all()
+        faces = (np.array(m['rel']) == 0.0).sum() == (np.array(u['rel']) == 0.0).sum()
+        out.append((f'mirror description {how}: same crystal, left-handed, atoms inside, faces kept',
+                    bool(r.same and abs(r.index - 1) < 1e-12 and np.linalg.det(m['vects']) < 0 and inside and faces)))
+        M = gen.sample_matrix(rng, 2, 1)
+        out.append((f'mirror uvws {how}: same Cartesian vectors',
+                    bool(np.abs(gen.mirror_uvws(M, how) @ m['vects'] - M @ u['vects']).max() < 1e-12)))
+    M = gen.sample_matrix(rng, 3, 1)
+    for fl in gen.FLIPS:
+        F = gen.flip_handedness(M, fl)
+        same_vectors = sorted(map(tuple, np.abs(np.sort(np.vstack([F, -F]), axis=0)).tolist())) == \
+            sorted(map(tuple, np.abs(np.sort(np.vstack([M, -M]), axis=0)).tolist()))
+        out.append((f'flip {fl}: opposite handedness, same vectors up to sign and order',
+                    bool(gen.det3(F) == -gen.det3(M) and same_vectors)))
+    # the frame readings: a result re-based at 0 satisfies 'origin' only, a plainly rotated one 'absolute' only,
+    # both when the corner is a lattice point
+    T = np.array([[0.0, -1, 0], [1, 0, 0], [0, 0, 1]])
+    for oc, expect in (('small', (False, True, True, False)), ('lattice', (True, True, True, True))):
+        u = gen.gen_unit_cell(rng, 'triclinic', oc, 1.0, 3, 2, 'generic')
+        lab = X.make_labels(3, u['atype'])
+        o = (u['vects'], u['origin'], u['pos'], lab)
+        rebased = (u['vects'] @ T.T, np.zeros(3), (u['pos'] - u['origin']) @ T.T, lab)
+        plain = (u['vects'] @ T.T, np.zeros(3), u['pos'] @ T.T, lab)
+        got = (X.compare(o, rebased, T=T, anchor='absolute').same, X.compare(o, rebased, T=T, anchor='origin').same,
+               X.compare(o, plain, T=T, anchor='absolute').same, X.compare(o, plain, T=T, anchor='origin').same)
+        out.append((f'frame readings told apart, origin {oc}', got == expect))
+        out.append((f'lattice_offset of origin {oc}', (gen.lattice_offset(u['vects'], u['origin']) < 1e-9) == (oc == 'lattice')))
+    return out
+
+
+def hand_of(u, M3=None):
+    d = np.linalg.det(u['vects']) * (1 if M3 is None else gen.det3(M3))
+    return 'lh' if d < 0 else 'rh'
+
+
+def same_crystal_pair(rec, key, what, r1, T1, r2, T2, L, same_cell=False, detail=None):
+    """Two results obtained from descriptions of ONE crystal (same lattice vectors up to sign/order, cell corners equal
+    modulo the original lattice) hold the same crystal: atoms of r2 map through T2.inv(T1), modulo the lattice of r1,
+    onto atoms of r1 with identical labels, equally often, none twice.  Both results are compared relative to their own
+    cell corners, so the clause does not depend on which frame reading rotate uses towards its input."""
+    d = dict(detail or {})
+    a, b = snapshot(r1), snapshot(r2)
+    keys = label_keys(a)
+    c1, c2 = as_cell(a, keys), as_cell(b, keys)
+    rec.count('pair:' + key)
+    if c1 is None or c2 is None:
+        rec.fail(what, key + ':labels', why='per-atom property missing', **d)
+        return
+    R = np.asarray(T2, float) @ np.linalg.inv(np.asarray(T1, float))
+    rp = X.compare(c1, c2, T=R, anchor='origin', tol=1e-6 * L)
+    rec.check(rp.same and abs(rp.index - 1) < 1e-6, what, key + ':crystal', report=rp.summary(),
+              first=dict(vects=a['vects'], origin=a['origin'], pos=a['props']['pos'][:6]),
+              second=dict(vects=b['vects'], origin=b['origin'], pos=b['props']['pos'][:6]), **d)
+    if same_cell:
+        Lr = np.linalg.norm(a['vects'], axis=1).max()
+        rec.close(1e-8 * Lr, b['vects'], a['vects'], what + ' - same cell vectors', key + ':cell', **d)
+        rec.close(1e-8 * Lr + 1e-9 * np.abs(a['origin']).max(), b['origin'], a['origin'], what + ' - same cell origin', key + ':origin', **d)
+        rec.close(1e-8, np.asarray(T2, float), np.asarray(T1, float), what + ' - same rotation', key + ':rotation', **d)
+
+
 def uvws_form(M, form):
     M = np.asarray(M)
     if form == 'list':
@@ -398,6 +531,9 @@ FORMS = ('list', 'int-array', 'float-array', 'int32-array')
 REF = ('coplanar', 'non-integer', 'hex4-on-nonhexagonal', 'hex4-sum-nonzero', 'wrong-shape')
 NEAR0 = ('zero', 'small')                 # origins for which the known finding (see KNOWN_ORIGIN_KEY) does not apply
 ALL4 = gen.ORIGINS4
+ALL5 = gen.ORIGINS5
+ENUM_ORIGINS = ('zero', 'small', 'lattice', 'near', 'small', 'far')      # first enumeration pass: 4 of 6 off the lattice
+SOURCES = ('enum1', 'sample2', 'sample3', 'hex4')
 
 
 def do_rotate(rec, am, u, arg, cls, key, rt=True, how=0):
@@ -426,7 +562,7 @@ def run(ctx):
 
     # -- 0. the oracle and the generator tables judge hand-built cases correctly --------------------
     for i in ctx.cases('selfcheck', 1):
-        for name, ok in X.selfcheck() + gen.verify_primitive_tables():
+        for name, ok in X.selfcheck() + gen.verify_primitive_tables() + harness_selfcheck(ctx.rng):
             rec.check(ok, 'harness: oracle / generator self-test', 'harness:selfcheck:' + name)
             rec.count('selfcheck')
         rec.case(('selfcheck',), nontrivial=False)
@@ -434,7 +570,11 @@ def run(ctx):
     # -- 1. supersize --------------------------------------------------------------------------------
     for i in ctx.cases('supersize', ctx.pick(720, 7200)):
         rng = ctx.rng
-        u, sig = unit_cell_for(i, rng, cells.ORIGINS)
+        u, sig = unit_cell_for(i, rng, ALL5)
+        if (i // 8) % 4 == 1:                              # left-handed description of the input cell (all 8 multiplier classes)
+            u = gen.mirror_description(u, gen.MIRRORS[(i // 32) % 4])
+            sig = sig + (u['hand'],)
+            rec.count('class:supersize-lefthanded-cell')
         mclass = gen.MULT_CLASSES[i % len(gen.MULT_CLASSES)]
         specs = gen.gen_multipliers(rng, mclass)
         s = build_system(am, u)
@@ -460,8 +600,9 @@ def run(ctx):
         rng = ctx.rng
         j, p = i % N_ENUM1, i // N_ENUM1
         M = E1[j]
-        # first pass: origins 'zero'/'small'; later passes (thorough): all four origin classes
-        u, sig = unit_cell_for(i + 4 * p + ctx.seed, rng, NEAR0 if p == 0 else ALL4, scale=1.0)
+        begin_case()
+        # first pass: zero / lattice-vector / generic origins of three sizes; later passes (thorough): all five origin classes
+        u, sig = unit_cell_for(i + 4 * p + ctx.seed, rng, ENUM_ORIGINS if p == 0 else ALL5, scale=1.0)
         d = gen.det3(M)
         ident = bool(np.array_equal(M, np.eye(3, dtype=int)))
         rec.case(('rotate-enum1', 'lh' if d < 0 else 'rh', abs(d), u['kind'], u['origin_class']), nontrivial=not ident,
@@ -474,6 +615,7 @@ def run(ctx):
         if i < 24:
             rec.sample(dict(entry='rotate', cell=u['kind'], vects=u['vects'], origin=u['origin'], rel=u['rel'], uvws=M, det=d))
         do_rotate(rec, am, u, uvws_form(M, FORMS[i % 4]), 'enum1:' + ('lh' if d < 0 else 'rh'), 'rotate:exception:enum1')
+        end_case(rec, 'rotate')
 
     # -- 3. rotate: seeded samples with entries up to 2 and 3 ------------------------------------------
     for i in ctx.cases('rotate-sample', ctx.pick(800, 9600)):
@@ -482,8 +624,9 @@ def run(ctx):
         sign = 1 if (i // 2) % 2 == 0 else -1
         form = FORMS[(i // 4) % 4]
         M = gen.sample_matrix(rng, bound, sign, max_det=60)
-        # three quarters with origins 'zero'/'small', one quarter with all four classes
-        u, sig = unit_cell_for(i // 2 + i % 2, rng, ALL4 if i % 4 == 3 else NEAR0, scale=1.0)
+        begin_case()
+        # three quarters with origins 'zero'/'small', one quarter with all five classes
+        u, sig = unit_cell_for(i // 2 + i % 2, rng, ALL5 if i % 4 == 3 else NEAR0, scale=1.0)
         d = gen.det3(M)
         rt = i % 16 != 13
         rec.case(('rotate-sample', bound, 'lh' if d < 0 else 'rh', form, u['kind'], u['origin_class'], rt), nontrivial=True,
@@ -496,6 +639,7 @@ def run(ctx):
             rec.sample(dict(entry='rotate', cell=u['kind'], vects=u['vects'], origin=u['origin'], rel=u['rel'], uvws=M, det=d))
         do_rotate(rec, am, u, uvws_form(M, form), f'sample{bound}:' + ('lh' if d < 0 else 'rh'), f'rotate:exception:sample{bound}',
                   rt=rt, how=0 if rt else 1 + (i // 16) % 2)
+        end_case(rec, 'rotate')
 
     # -- 4. rotate: Miller-Bravais sets on hexagonal cells ----------------------------------------------
     for i in ctx.cases('rotate-hex4', ctx.pick(240, 2400)):
@@ -506,7 +650,8 @@ def run(ctx):
             M3 = gen.sample_matrix(rng, 2, 1 if i % 2 else -1, max_det=20)
         style = ('reduced', 'raw')[(i // 3) % 2]
         M4 = gen.hex4_rows(M3, style)
-        oc = (ALL4 if i % 4 == 3 else NEAR0)[(i // 4) % (4 if i % 4 == 3 else 2)]
+        oc = (ALL5 if i % 4 == 3 else NEAR0)[(i // 4) % (5 if i % 4 == 3 else 2)]
+        begin_case()
         u = gen.gen_unit_cell(rng, 'hexagonal', oc, 1.0, 1 + i % 5, 1 + (i // 5) % 3, gen.POS_CLASSES[(i // 2) % 5])
         d = gen.det3(M3)
         rec.case(('rotate-hex4', style, 'lh' if d < 0 else 'rh', oc), nontrivial=True, fp=fingerprint(u['vects'], u['origin'], u['pos'], M4))
@@ -517,6 +662,85 @@ def run(ctx):
         if i < 8:
             rec.sample(dict(entry='rotate', cell='hexagonal', vects=u['vects'], origin=u['origin'], rel=u['rel'], uvtws=M4, as_uvw=M3))
         do_rotate(rec, am, u, uvws_form(M4, FORMS[i % 4]), 'hex4:' + style, 'rotate:exception:hex4')
+        end_case(rec, 'rotate')
+
+    # -- 4b. rotate: one crystal, every description ------------------------------------------------------
+    # One unit cell per case, five calls: the identity set, a vector set M, the same three lattice vectors with the
+    # opposite handedness (one of seven flips), and - on the LEFT-HANDED description of the same unit cell - the
+    # identity set and the components of M's vectors along the reversed cell vectors.  Each call is judged against its
+    # own input by the monitor; here the results are compared with one another (same crystal) and the frame reading
+    # is required to be one and the same for all five.
+    for i in ctx.cases('rotate-family', ctx.pick(1260, 5040)):
+        rng = ctx.rng
+        begin_case()
+        src = SOURCES[i % 4]
+        oc = ALL5[i % 5]
+        flip = gen.FLIPS[i % 7]
+        kind = 'hexagonal' if src == 'hex4' else cells.KINDS[i % 9]
+        pc = gen.POS_CLASSES[(i // 5) % 5]
+        mirror = 'lh-c' if src == 'hex4' else gen.MIRRORS[(i // 7) % 4]
+        sign = 1 if (i // 4) % 2 == 0 else -1
+        u = gen.gen_unit_cell(rng, kind, oc, 1.0, 1 + (i // 3) % 5, 1 + (i // 15) % 3, pc)
+        if src == 'enum1':
+            M = E1[int(rng.integers(0, N_ENUM1))]
+            if gen.det3(M) * sign < 0:
+                M = gen.flip_handedness(M, 'neg-row2')
+        else:
+            M = gen.sample_matrix(rng, 3 if src == 'sample3' else 2, sign, max_det=24)
+        Mf = gen.flip_handedness(M, flip)
+        uL = gen.mirror_description(u, mirror)
+        ML = gen.mirror_uvws(M, mirror)
+        if src == 'hex4':
+            style = ('reduced', 'raw')[(i // 8) % 2]
+            args = [gen.hex4_rows(m_, style) for m_ in (M, Mf, ML)]
+        else:
+            args = [M, Mf, ML]
+        form = FORMS[(i // 2) % 4]
+        distinguishable = gen.lattice_offset(u['vects'], u['origin']) > 1e-3
+        onface = bool(np.any(u['rel'] == 0.0))
+        rec.case(('rotate-family', src, oc, flip, mirror, 'lh' if sign < 0 else 'rh', kind, pc), nontrivial=True,
+                 fp=fingerprint(u['vects'], u['origin'], u['pos'], M, flip, mirror))
+        rec.count('class:family')
+        rec.count('class:family-src-' + src)
+        rec.count('class:family-origin-' + oc)
+        rec.count('class:family-flip-' + flip)
+        rec.count('class:family-mirror-' + mirror)
+        rec.count('class:family-first-' + ('lh' if sign < 0 else 'rh'))
+        rec.count('class:family-' + ('off-lattice' if distinguishable else 'on-lattice') + ('-face' if onface else '-generic'))
+        rec.count('class:rotate-lefthanded', 2 + (sign < 0))     # M or its flip, the identity on uL, M on uL if M is left-handed
+        rec.count('class:rotate-righthanded', 3 - (sign < 0))
+        count_cell_classes(rec, u)
+        if i < 8:
+            rec.sample(dict(entry='rotate-family', cell=kind, vects=u['vects'], origin=u['origin'], rel=u['rel'], uvws=args[0],
+                            flipped=args[1], flip=flip, lefthanded_cell=dict(vects=uL['vects'], origin=uL['origin'], rel=uL['rel']),
+                            uvws_on_lefthanded_cell=args[2]))
+        tag = f'family:{src}:{oc}'
+        dd = dict(uvws=M, flip=flip, mirror=mirror, origin_class=oc, input=dict(vects=u['vects'], origin=u['origin'], pos=u['pos']))
+        r_id = do_rotate(rec, am, u, np.eye(3, dtype=int), tag + ':identity', 'rotate:exception:family')
+        r_M = do_rotate(rec, am, u, uvws_form(args[0], form), tag + ':M', 'rotate:exception:family')
+        r_F = do_rotate(rec, am, u, uvws_form(args[1], form), tag + ':' + flip, 'rotate:exception:family')
+        r_idL = do_rotate(rec, am, uL, np.eye(3, dtype=int), tag + ':identity-on-' + mirror, 'rotate:exception:family')
+        r_ML = do_rotate(rec, am, uL, uvws_form(args[2], form), tag + ':M-on-' + mirror, 'rotate:exception:family')
+        STATE['cls'] = tag + ':' + flip + ':' + mirror
+        L = u['L']
+        if r_M is not None and r_F is not None:
+            same_crystal_pair(rec, 'rotate:handed-twin', 'rotate: a vector set and the same three lattice vectors taken with the opposite '
+                              'handedness give the same crystal', r_M[0], r_M[1], r_F[0], r_F[1], L,
+                              same_cell=(flip == 'neg-row2'), detail=dd)
+            rec.count('family:twin-compared')
+            if flip == 'neg-row2':
+                rec.count('family:twin-same-cell')
+        if r_M is not None and r_ML is not None:
+            same_crystal_pair(rec, 'rotate:lefthanded-cell', 'rotate: the same lattice vectors requested on the left-handed description of '
+                              'the unit cell give the same crystal', r_M[0], r_M[1], r_ML[0], r_ML[1], L, same_cell=False, detail=dd)
+            rec.count('family:mirror-compared')
+        if r_id is not None and r_idL is not None:
+            same_crystal_pair(rec, 'rotate:lefthanded-cell:identity', 'rotate: the identity set on the right- and on the left-handed '
+                              'description of the unit cell gives the same crystal', r_id[0], r_id[1], r_idL[0], r_idL[1], L,
+                              same_cell=False, detail=dd)
+            rec.count('family:identity-compared')
+        end_case(rec, 'rotate:family')
+        STATE['cls'] = None
 
     # -- 5. rotate: documented refusals -----------------------------------------------------------------
     for i in ctx.cases('rotate-refusals', ctx.pick(60, 300)):
@@ -554,6 +778,7 @@ def run(ctx):
         rng = ctx.rng
         setting, basis, family = TAB[i % len(TAB)]
         r = i // len(TAB)
+        begin_case()
         nmotif, ntypes = 1 + r % 3, 1 + (r // 3) % 2
         oc = ALL4[(r // 4) % 4] if r % 4 == 3 else NEAR0[(r // 2) % 2]
         conv = gen.gen_conventional(rng, basis, family, nmotif, ntypes, oc)
@@ -627,6 +852,91 @@ def run(ctx):
                 judge(rec, 'c2p', 'conventional_to_primitive', cbefore, p2, T2, 'auto', 1.0 / mult, None, lammps=True, detail=dd)
                 rec.count('monitor:roundtrip-p2c-c2p')
                 judge(rec, 'roundtrip:p2c-c2p', 'c2p(p2c(x)) = x', before, p2, T2 @ T1, 'auto', 1.0, [np.eye(3)], lammps=True, detail=dd)
+        end_case(rec, 'conversion')
+        STATE['cls'] = None
+
+    # -- 6b. conversions: right- and left-handed descriptions of one cell, five origin classes ----------
+    # The conventional cell and its primitive cell are converted twice: as generated (right-handed) and in a left-handed
+    # description of the same crystal.  Every conversion is judged against its own input; the two primitive (conventional)
+    # results must hold the same crystal, each conversion must be undone by the other one, and every call of the case
+    # (the rotate calls the styles make internally included) must use the same frame reading.
+    for i in ctx.cases('conversions-handed', ctx.pick(len(TAB) * 10, len(TAB) * 30)):
+        rng = ctx.rng
+        setting, basis, family = TAB[i % len(TAB)]
+        r = i // len(TAB)
+        begin_case()
+        oc = ALL5[(r + i) % 5]
+        nmotif, ntypes = 1 + (r // 2) % 3, 1 + r % 2
+        conv = gen.gen_conventional(rng, basis, family, nmotif, ntypes, oc)
+        mult = gen.multiplicity(basis)
+        # reversing one vector turns the obverse rhombohedral centring into the reverse one and breaks the equal angles of
+        # a rhombohedral cell (documented family refusals): those cells are reversed along all three vectors
+        # (a hexagonal cell with a or b reversed has gamma = 60 degrees: not a hexagonal cell either)
+        if basis in ('t1', 't2') or family == 'rhombohedral':
+            mirror = 'lh-all'
+        elif family == 'hexagonal':
+            mirror = ('lh-c', 'lh-all')[(r // 5 + i) % 2]
+        else:
+            mirror = ('lh-c', 'lh-all', 'lh-a', 'lh-b')[(r // 5 + i) % 4]
+        convL = gen.mirror_description(conv, mirror)
+        prim = gen.primitive_of(conv, rng, 'raw')
+        primL = gen.mirror_description(prim, 'lh-all')          # the styles' primitive-vector convention survives only inversion
+        rec.case(('conversion-handed', setting, basis, family, oc, mirror), nontrivial=True,
+                 fp=fingerprint(conv['vects'], conv['origin'], conv['pos'], setting, mirror))
+        rec.count('class:convh')
+        rec.count('class:convh-' + setting)
+        rec.count('class:convh-origin-' + oc)
+        rec.count('class:convh-mirror-' + mirror)
+        rec.count('class:origin-' + oc)
+        if gen.lattice_offset(conv['vects'], conv['origin']) > 1e-3:
+            rec.count('class:convh-off-lattice')
+        if r < 1 and i < 4:
+            rec.sample(dict(entry='conversion-handed', setting=setting, family=family, vects=convL['vects'], origin=convL['origin'],
+                            rel=convL['rel'], atype=convL['atype'], mirror=mirror))
+        STATE['cls'] = f'{setting}/{family}/{oc}/{mirror}'
+        dd = dict(setting=setting, basis=basis, family=family, origin_class=oc, mirror=mirror)
+        L = conv['L']
+        got = {}
+        for name, cell_, m_ in (('rh', conv, None), ('lh', convL, mirror)):
+            cs = build_system(am, cell_)
+            before = snapshot(cs)
+            out = attempt(rec, f'conventional_to_primitive accepts a {name} {family} cell with the {setting} setting', 'c2p:exception',
+                          lambda: cs.dump('conventional_to_primitive', setting=setting, return_transform=True), chain='c2p')
+            if out is None:
+                continue
+            ps, T1 = out[0], np.asarray(out[1], float)
+            rec.count('monitor:c2p')
+            rec.count('monitor:c2p:' + name)
+            judge(rec, 'c2p', 'conventional_to_primitive', before, ps, T1, 'auto', 1.0 / mult, None, lammps=True, detail=dict(dd, hand=name))
+            got['c2p-' + name] = (ps, T1)
+            back = attempt(rec, 'primitive_to_conventional accepts the primitive cell made by conventional_to_primitive', 'p2c:exception',
+                           lambda: ps.dump('primitive_to_conventional', setting=basis, return_transform=True), chain='p2c')
+            if back is not None:
+                c2, T2 = back[0], np.asarray(back[1], float)
+                rec.count('monitor:roundtrip-c2p-p2c')
+                judge(rec, 'roundtrip:c2p-p2c', 'p2c(c2p(x)) = x', before, c2, T2 @ T1, 'auto', 1.0, [np.eye(3)] if name == 'rh' else None,
+                      lammps=True, detail=dict(dd, hand=name))
+        for name, cell_ in (('rh', prim), ('lh', primL)):
+            ps = build_system(am, cell_)
+            before = snapshot(ps)
+            out = attempt(rec, f'primitive_to_conventional accepts the {name} primitive cell of a {basis}-centred {family} lattice',
+                          'p2c:exception', lambda: ps.dump('primitive_to_conventional', setting=basis, return_transform=True), chain='p2c')
+            if out is None:
+                continue
+            c2, T1 = out[0], np.asarray(out[1], float)
+            rec.count('monitor:p2c')
+            rec.count('monitor:p2c:' + name)
+            judge(rec, 'p2c', 'primitive_to_conventional', before, c2, T1, 'auto', float(mult), None, lammps=True, detail=dict(dd, hand=name))
+            got['p2c-' + name] = (c2, T1)
+        if 'c2p-rh' in got and 'c2p-lh' in got:
+            same_crystal_pair(rec, 'c2p:lefthanded-cell', 'conventional_to_primitive: the right- and the left-handed description of one '
+                              'conventional cell give the same crystal', *got['c2p-rh'], *got['c2p-lh'], L, detail=dd)
+            rec.count('convh:c2p-compared')
+        if 'p2c-rh' in got and 'p2c-lh' in got:
+            same_crystal_pair(rec, 'p2c:lefthanded-cell', 'primitive_to_conventional: the right- and the left-handed description of one '
+                              'primitive cell give the same crystal', *got['p2c-rh'], *got['p2c-lh'], L, detail=dd)
+            rec.count('convh:p2c-compared')
+        end_case(rec, 'conversion')
         STATE['cls'] = None
 
     # -- coverage --------------------------------------------------------------------------------------
@@ -640,14 +950,51 @@ def run(ctx):
     rec.count('reach:supersize-body', cover.hits(sysf, 925, 1026))
     rec.count('reach:rotate-body', cover.hits(sysf, 1063, 1151))
     rec.count('reach:normalize', cover.hits('atomman/lammps/normalize.py', 37, 70))
+    rec.count('reach:normalize-lefthanded-branch', cover.hits('atomman/lammps/normalize.py', 42, 45))
     rec.count('reach:miller-4to3', cover.hits('atomman/tools/miller.py', 137, 150))
     rec.count('reach:miller-centring-tables', cover.hits('atomman/tools/miller.py', 220, 337))
     rec.count('reach:c2p-dump', cover.hits('atomman/dump/conventional_to_primitive/dump.py', 95, 175))
     rec.count('reach:p2c-dump', cover.hits('atomman/dump/primitive_to_conventional/dump.py', 50, 70))
 
-    rec.floor('selfcheck', 20)
+    rec.floor('selfcheck', 40)
+    # one crystal, every description (left-/right-handed vector sets and unit cells x origin classes x atoms on faces)
+    rec.floor('class:family', 1260)
+    for oc_ in ALL5:
+        rec.floor('class:family-origin-' + oc_, 250)
+        rec.floor('class:convh-origin-' + oc_, 40)
+    for fl_ in gen.FLIPS:
+        rec.floor('class:family-flip-' + fl_, 175)
+    for m_ in gen.MIRRORS:
+        rec.floor('class:family-mirror-' + m_, 200)
+    for src_ in SOURCES:
+        rec.floor('class:family-src-' + src_, 300)
+    rec.floor('class:family-first-lh', 600)
+    rec.floor('class:family-first-rh', 600)
+    rec.floor('class:family-off-lattice-face', 450)
+    rec.floor('class:family-off-lattice-generic', 120)
+    rec.floor('class:family-on-lattice-face', 300)
+    rec.floor('family:twin-compared', 1200)
+    rec.floor('family:twin-same-cell', 170)
+    rec.floor('family:mirror-compared', 1200)
+    rec.floor('family:identity-compared', 1200)
+    rec.floor('class:convh', 220)
+    rec.floor('class:convh-off-lattice', 120)
+    rec.floor('convh:c2p-compared', 200)
+    rec.floor('convh:p2c-compared', 200)
+    rec.floor('monitor:c2p:lh', 200)
+    rec.floor('monitor:p2c:lh', 200)
+    rec.floor('monitor:rotate:lh', 8000)
+    rec.floor('monitor:rotate:rh', 8000)
+    rec.floor('class:supersize-lefthanded-cell', 150)
+    rec.floor('class:origin-lattice', 2000)
+    # calls that can tell the two frame readings apart (cell corner off the lattice), per handedness, and cases in
+    # which a left- and a right-handed call on the same unit cell both could
+    rec.floor('anchor:pinned:lh', 5000)
+    rec.floor('anchor:pinned:rh', 5000)
+    rec.floor('anchor:case-pinned-lh-and-rh', 800)
+    rec.floor('reach:normalize-lefthanded-branch', 4)
     rec.floor('monitor:supersize', 700)
-    rec.floor('monitor:rotate', N_ENUM1 + 800)
+    rec.floor('monitor:rotate', N_ENUM1 + 800 + 5 * 1200)
     rec.floor('monitor:rotate>supersize', N_ENUM1)
     rec.floor('monitor:c2p>rotate', 250)
     rec.floor('monitor:p2c>rotate', 250)
